@@ -348,7 +348,7 @@ def replay(data):
         K = f2.null_space(arrs[0].copy())
         r = f2.rank(arrs[0].copy())
         n = arrs[0].shape[1]
-        ok = isinstance(K, np.ndarray) and K.ndim == 2 and K.shape == (n - r, n) and K.dtype == np.int8
+        ok = isinstance(K, np.ndarray) and K.ndim == 2 and K.shape == (n - r, n) and K.dtype.kind in "iub"
         print("null_space(", arrs[0].tolist(), ") ->", repr(K), "contract holds:", ok)
         return 0 if ok else 1
     print("input:", [a.tolist() for a in arrs], "native result recorded:", inp.get("native_result"))
